@@ -107,12 +107,12 @@ def _native_snapshot(o):
 
 
 def _class_state(g):
-    """data attributes stored on the library's classes (shared, hidden state such as cached singletons)"""
+    """public data attributes stored on the library's classes (private class-level caches are not observable by themselves; what they do to answers is compared by the repeated queries and the factory clauses)"""
     out = []
     for name in ("Vector", "Point", "Line", "Plane", "Segment", "HalfLine", "ConvexPolygon", "ConvexPolyhedron", "Pyramid"):
         cls = getattr(g, name)
         for k, v in sorted(vars(cls).items()):
-            if k.startswith("__") or callable(v) or isinstance(v, (classmethod, staticmethod, property)):
+            if k.startswith("_") or callable(v) or isinstance(v, (classmethod, staticmethod, property)):
                 continue
             out.append((name, k, snapshot(v)))
     return tuple(out)
@@ -190,15 +190,23 @@ def bounded_interleavings(seed, n_hist, steps):
                     pool_ids |= mutable_ids(x)
                 if not (mutable_ids(r1) & pool_ids):  # (a pass-through result is the operand itself: mutating it would change the question)
                     a0, b0 = copy.deepcopy(a), copy.deepcopy(b)
+                    keep = copy.deepcopy(r1)
                     r1.move(V(3, -1, 2))
                     ev += 1
                     classes.add("requery:" + klass)
+
+                    def same(x):  # the same set as the first answer (vertex order of a polygon is free)
+                        try:
+                            return type(x) is type(keep) and bool(x == keep)
+                        except Exception:
+                            return False
                     for lab, qa, qb in (("same operands", a, b), ("equal operands (deep copies taken before the first query)", a0, b0)):
                         try:
-                            r3 = repr(q(qa, qb))
+                            r3v = q(qa, qb)
+                            r3 = repr(r3v)
                         except Exception as e:
-                            r3 = repr(type(e))
-                        if r3 != first:
+                            r3v, r3 = None, repr(type(e))
+                        if r3 != first and not same(r3v):
                             fail("requery:" + klass, "the caller moved the result of a query; asking again (%s) gave a different answer" % lab,
                                  dict(query=qn, a=repr(a), b=repr(b), first=first, second=r3))
                     # an operand is moved away (in place); an equal copy taken before still gets the first answer
@@ -206,11 +214,12 @@ def bounded_interleavings(seed, n_hist, steps):
                         back = V(-4, 6, -5)
                         a.move(V(4, -6, 5))
                         try:
-                            r4 = repr(q(a0, b0))
+                            r4v = q(a0, b0)
+                            r4 = repr(r4v)
                         except Exception as e:
-                            r4 = repr(type(e))
+                            r4v, r4 = None, repr(type(e))
                         a.move(back)
-                        if r4 != first:
+                        if r4 != first and not same(r4v):
                             fail("requery:" + klass, "an operand was moved in place after the query; equal operands at the old position got a different answer",
                                  dict(query=qn, a=repr(a0), b=repr(b0), first=first, second=r4))
         # factory functions keep returning what their names say after their results were mutated / used in moved objects
@@ -336,23 +345,25 @@ def bounded_requery(seed, n_per):
                 continue  # (raising is C01-C04's business)
             if r1 is None or not hasattr(r1, "move") or (mutable_ids(r1) & (mutable_ids(A) | mutable_ids(Bb))):
                 continue  # a pass-through result is the operand itself: mutating it changes the question
+            if not O.matches(r1, exact, 1e-7)[0]:
+                continue  # (a wrong first answer is C01-C04's business)
             acc.case(klass)
             first = repr(r1)
             case = dict(a=B.ser(x), b=B.ser(y), first=first)
             r1.move(V(3, -1, 2))
             for lab, qa, qb in (("the same operands", A, Bb), ("equal operands copied before the first query", A0, B0)):
                 kind, val = B._call(g.intersection, qa, qb)
-                if repr(val) != first:
+                if kind == "exc" or not O.matches(val, exact, 1e-7)[0]:
                     acc.fail(klass, "the caller moved the result; asking again about %s gave %s, first answer %s" % (lab, repr(val)[:120], first[:120]), case)
             if hasattr(A, "move") and not isinstance(A, g.Point):
                 A.move(V(4, -6, 5))
                 kind, val = B._call(g.intersection, A0, B0)
-                if repr(val) != first:
+                if kind == "exc" or not O.matches(val, exact, 1e-7)[0]:
                     acc.fail(klass, "the first operand was moved away in place; equal operands at the old position got %s, first answer %s" % (repr(val)[:120], first[:120]), case)
             if hasattr(Bb, "move") and not isinstance(Bb, g.Point):
                 Bb.move(V(-2, 7, 1))
                 kind, val = B._call(g.intersection, A0, B0)
-                if repr(val) != first:
+                if kind == "exc" or not O.matches(val, exact, 1e-7)[0]:
                     acc.fail(klass, "the second operand was moved away in place; equal operands at the old position got %s, first answer %s" % (repr(val)[:120], first[:120]), case)
             acc.sample(dict(klass=klass, a=B.ser(x), b=B.ser(y)))
     return acc.result()
